@@ -18,7 +18,7 @@ use std::time::Duration;
 #[cfg(not(roughenough_verif))]
 use std::{env, thread};
 #[cfg(roughenough_verif)]
-use verif_std::{env, thread};
+use verif_std::{env, thread, *};
 
 use crate::config::ServerConfig;
 use crate::config::{DEFAULT_BATCH_SIZE, DEFAULT_STATUS_INTERVAL};
